@@ -251,7 +251,12 @@ func ruleEpcShared(c *Ctx) {
 							if ls, ok := ast.Unparen(l).(*ast.SelectorExpr); ok && ls.Sel.Name == "EffectiveBalances" && i < len(as.Rhs) {
 								if call, ok := ast.Unparen(as.Rhs[i]).(*ast.CallExpr); ok {
 									if id, ok := call.Fun.(*ast.Ident); ok && id.Name == "make" && as.Pos() < sel.Pos() || as.Pos() == sel.Pos() {
-										made = true
+										// the replacement must be unconditional: a top-level statement of the function body
+										for _, top := range fd.Body.List {
+											if top == ast.Stmt(as) {
+												made = true
+											}
+										}
 									}
 								}
 							}
@@ -780,7 +785,43 @@ func ruleGenesisInit(c *Ctx) {
 		}
 		return true
 	})
-	if actOK && capOK && eqOK && setEff != 0 {
+	// SetEffectiveBalance must run for every validator: its statement sits directly in the loop body, not under the
+	// activation condition
+	uncond := false
+	ast.Inspect(fd.Body, func(n ast.Node) bool {
+		var body *ast.BlockStmt
+		switch x := n.(type) {
+		case *ast.ForStmt:
+			body = x.Body
+		case *ast.RangeStmt:
+			body = x.Body
+		default:
+			return true
+		}
+		for _, st := range body.List {
+			found := false
+			if ifs, ok := st.(*ast.IfStmt); ok && ifs.Init != nil {
+				ast.Inspect(ifs.Init, func(m ast.Node) bool {
+					if call, ok := m.(*ast.CallExpr); ok && calleeLabel(info, call) == "SetEffectiveBalance" {
+						found = true
+					}
+					return true
+				})
+			}
+			if es, ok := st.(*ast.ExprStmt); ok {
+				if call, ok := es.X.(*ast.CallExpr); ok && calleeLabel(info, call) == "SetEffectiveBalance" {
+					found = true
+				}
+			}
+			if found {
+				uncond = true
+			}
+		}
+		return true
+	})
+	if setEff != 0 && !uncond {
+		c.bad("GenesisFromEth1.activation", setEff, "the effective balance is only recomputed for some validators (the call is nested under a condition); the spec recomputes it from the final balance for every validator before testing for activation")
+	} else if actOK && capOK && eqOK && setEff != 0 {
 		c.ok("GenesisFromEth1.activation", setEff, "effective balance = min(balance - balance mod INCREMENT, MAX); activated at genesis iff == MAX_EFFECTIVE_BALANCE")
 	} else {
 		c.bad("GenesisFromEth1.activation", fd.Pos(), "genesis activation loop deviates (rounding %v, cap %v, activation-at-max %v, SetEffectiveBalance %v)", actOK, capOK, eqOK, setEff != 0)
